@@ -4,6 +4,7 @@ import (
 	"bytes"
 	"os"
 	"os/exec"
+	"syscall"
 	"testing"
 )
 
@@ -26,6 +27,14 @@ type cliResult struct {
 }
 
 func runCLI(bin string, stdin []byte, dir string, env []string, args ...string) cliResult {
+	return runCLIStdin(bin, "", stdin, dir, env, args...)
+}
+
+// runCLIStdin: as runCLI; how descriptor 0 of the tool is made is chosen by kind: "" / "pipe" an anonymous pipe,
+// "file" a regular file opened for reading, "file-offset" a regular file that begins with other material and is
+// handed over positioned at the input (as in `{ read-first; zlint; } < bundle`), "socket" one end of a unix
+// socket pair (what inetd-style supervisors and sshd give a command).
+func runCLIStdin(bin, kind string, stdin []byte, dir string, env []string, args ...string) cliResult {
 	cmd := exec.Command(bin, args...)
 	cmd.Dir = dir
 	if env != nil {
@@ -33,7 +42,45 @@ func runCLI(bin string, stdin []byte, dir string, env []string, args ...string) 
 	}
 	var so, se bytes.Buffer
 	cmd.Stdout, cmd.Stderr = &so, &se
-	if stdin != nil {
+	var closers []*os.File
+	defer func() {
+		for _, f := range closers {
+			f.Close()
+		}
+	}()
+	switch {
+	case stdin == nil:
+	case kind == "file" || kind == "file-offset":
+		f, err := os.CreateTemp(dir, "stdin-*")
+		if err != nil {
+			return cliResult{Exit: -1, Err: err.Error()}
+		}
+		closers = append(closers, f)
+		defer os.Remove(f.Name())
+		var lead []byte
+		if kind == "file-offset" {
+			lead = []byte("-----BEGIN CERTIFICATE-----\nTUlJQmxlYWRpbmcgbWF0ZXJpYWwgdGhhdCB3YXMgcmVhZCBieSBzb21lYm9keSBlbHNl\n-----END CERTIFICATE-----\n")
+		}
+		if _, err := f.Write(append(append([]byte{}, lead...), stdin...)); err != nil {
+			return cliResult{Exit: -1, Err: err.Error()}
+		}
+		if _, err := f.Seek(int64(len(lead)), 0); err != nil {
+			return cliResult{Exit: -1, Err: err.Error()}
+		}
+		cmd.Stdin = f
+	case kind == "socket":
+		fds, err := syscall.Socketpair(syscall.AF_UNIX, syscall.SOCK_STREAM|syscall.SOCK_CLOEXEC, 0)
+		if err != nil {
+			return cliResult{Exit: -1, Err: err.Error()}
+		}
+		rd, wr := os.NewFile(uintptr(fds[0]), "stdin-socket"), os.NewFile(uintptr(fds[1]), "stdin-socket-peer")
+		closers = append(closers, rd)
+		go func() {
+			_, _ = wr.Write(stdin)
+			wr.Close()
+		}()
+		cmd.Stdin = rd
+	default:
 		cmd.Stdin = bytes.NewReader(stdin)
 	}
 	err := cmd.Run()
